@@ -64,6 +64,7 @@ class Path:
         self.stats = stats or Stats()
         self.nfresh = 0
         self.data = {}           # scratch for harnesses
+        self.decided = {}        # ast id of a decided branch condition -> bool
 
     # -- solver ---------------------------------------------------------
     def assume(self, *conds):
@@ -99,6 +100,9 @@ class Path:
             return True
         if z3.is_false(cond):
             return False
+        cid = cond.get_id()
+        if cid in self.decided:
+            return self.decided[cid]
         if self.pos < len(self.decisions):
             d = self.decisions[self.pos]
         else:
@@ -117,6 +121,9 @@ class Path:
             self.decisions.append(d)
         self.pos += 1
         self.assume(cond if d else z3.Not(cond))
+        self.decided[cid] = d
+        self._keep = getattr(self, '_keep', [])
+        self._keep.append(cond)      # keep the term alive so its id is not reused
         return d
 
     def realise(self, e, site='?', limit=70000):
@@ -255,10 +262,11 @@ def _const_of(e):
 
 class SymInt:
     """Proxy for a Python int: 64-bit signed BV term + conservative interval [lo, hi]."""
-    __slots__ = ('e', 'lo', 'hi')
+    __slots__ = ('e', 'lo', 'hi', 'prov')
 
     def __init__(self, e, lo=None, hi=None):
         self.e = e
+        self.prov = None         # (base SymInt, delta int-like): self == base + delta and base has a cached quotient/remainder
         if lo is None or hi is None:
             c = _const_of(e)
             if c is not None:
@@ -295,7 +303,18 @@ class SymInt:
         if o is None: return NotImplemented
         self._need_bounded('+'); o._need_bounded('+')
         lo, hi = _guard(self.lo + o.lo, self.hi + o.hi)
-        return SymInt(self.e + o.e, lo, hi)
+        res = SymInt(self.e + o.e, lo, hi)
+        p = Path.cur
+        if p is not None and 'decomposed' in getattr(p, 'data', {}):
+            dec = p.data['decomposed']
+            for x, y in ((self, o), (o, self)):
+                if x.prov is not None:
+                    res.prov = (x.prov[0], x.prov[1] + y)
+                    break
+                if x.e.get_id() in dec:
+                    res.prov = (x, y)
+                    break
+        return res
     __radd__ = __add__
 
     def __sub__(self, o):
@@ -401,10 +420,24 @@ class SymInt:
         key = ('divmod', self.e.get_id(), n)
         if key in p.data:
             return p.data[key]
+        if self.prov is not None:
+            base, delta = self.prov
+            bkey = ('divmod', base.e.get_id(), n)
+            dlo, dhi = rng(delta)
+            if bkey in p.data and dlo >= 0 and dhi < n:
+                # (base + delta) with 0 <= delta < n: at most one wrap; no new quotient variable needed
+                q, r = p.data[bkey]
+                sm = r + delta
+                wrap = sm >= n
+                res = (ite(wrap, q + 1, q), ite(wrap, sm - n, sm))
+                p.data[key] = res
+                return res
         qv, rv = p.fresh('q'), p.fresh('r')
         p.assume(self.e == qv * n + rv, rv >= 0, rv < n, qv >= qlo, qv <= qhi)
         res = (SymInt(qv, qlo, qhi), SymInt(rv, 0, n - 1))
         p.data[key] = res
+        p.data.setdefault('decomposed', set()).add(self.e.get_id())
+        p.data.setdefault('_keep', []).append(self.e)
         return res
 
     def _divisor(self, o):
@@ -579,8 +612,12 @@ def let(v, name='let'):
     if z3.is_const(v.e):
         return v
     p = Path.cur
+    key = ('let', v.e.get_id())
+    if key in p.data:
+        return SymInt(p.data[key][0], v.lo, v.hi)
     f = p.fresh(name)
     p.assume(f == v.e)
+    p.data[key] = (f, v.e)        # the term is kept alive so that its id stays unique
     return SymInt(f, v.lo, v.hi)
 
 
